@@ -197,6 +197,15 @@ def plateaus(ctx, nd):
                     if gap:
                         v[gap[0]:gap[1]] = False
                     rows.append((n, np.where(v, x, nd), v))
+                # the first valid sample far away from the plateau (the kernels shift by it): the spread about that
+                # sample is huge, the variance of the record is still that of the bumps
+                for first in (0, -15000, level - 9000):
+                    for lead in (0, 3):
+                        x2 = x.copy()
+                        x2[lead] = first
+                        v = np.ones(n, bool)
+                        v[:lead] = False
+                        rows.append((n, np.where(v, x2, nd), v))
     for n in sorted({r[0] for r in rows}):
         sel = [r for r in rows if r[0] == n]
         vals = np.array([r[1] for r in sel])
